@@ -15,7 +15,7 @@ func init() {
 		Level: "other",
 		Explanation: "Structural clauses of package initialisation order: R15.1 in every function that starts execution (Execute, importSrc) the root code runs before the global-variable node, which runs before the forward loop over the start list, on every go/cfg path; main is appended to the start list after every init contribution and before the loop; " +
 			"R15.2 the per-file compile pass contributes only init functions to the start list, by appending (never prepending, sorting or reversing); R15.3 in importSrc the already-imported test dominates every file access and every run; " +
-			"R15.4 the dependency collector of package variables follows function symbols. The correctness of the ordering fix-point for direct dependencies is not decided.",
+			"R15.4 the dependency collector of package variables follows function symbols and methods; R15.5 it ignores identifiers only where they cannot refer to a variable; R15.6 after each selection the scan restarts from the earliest pending variable; R15.7 every variable symbol of the global pass records its declaration; R15.8 unresolved right-hand sides are retried. Completeness of the collected dependency sets for every expression form is not decided.",
 		Assumptions: []string{"go/cfg dominance over resolved call sites", "ReadDir order is the file order the Go toolchain uses (sorted names)"},
 		Run:         runC15,
 	})
